@@ -117,6 +117,16 @@ func (c *Ctx) loadKnown() {
 	}
 }
 
+// outRoot is where evidence and replay files go: the verif root, unless
+// VERIF_OUT_DIR redirects them (used for break trials on seeded changes, which
+// must not overwrite the evidence of the unchanged tree).
+func (c *Ctx) outRoot() string {
+	if d := os.Getenv("VERIF_OUT_DIR"); d != "" {
+		return d
+	}
+	return c.Root
+}
+
 // Quick reports the tier.
 func (c *Ctx) Quick() bool { return c.Tier != "thorough" }
 
@@ -313,7 +323,7 @@ func (c *Ctx) Finish() int {
 	for i := range c.violations {
 		v := &c.violations[i]
 		h := sha256.Sum256([]byte(fmt.Sprintf("%s|%s|%d|%d|%s", v.Sig, v.Stream, v.Index, v.Seed, v.Tier)))
-		dir := filepath.Join(c.Root, "replay", c.ID)
+		dir := filepath.Join(c.outRoot(), "replay", c.ID)
 		os.MkdirAll(dir, 0o755)
 		v.Path = filepath.Join(dir, hex.EncodeToString(h[:6])+".json")
 		b, _ := json.MarshalIndent(v, "", " ")
@@ -380,8 +390,8 @@ func (c *Ctx) Finish() int {
 		ev["inconclusive"] = c.inconcl
 	}
 	b, _ := json.MarshalIndent(ev, "", " ")
-	os.MkdirAll(filepath.Join(c.Root, "evidence"), 0o755)
-	os.WriteFile(filepath.Join(c.Root, "evidence", c.ID+".json"), append(b, '\n'), 0o644)
+	os.MkdirAll(filepath.Join(c.outRoot(), "evidence"), 0o755)
+	os.WriteFile(filepath.Join(c.outRoot(), "evidence", c.ID+".json"), append(b, '\n'), 0o644)
 
 	fmt.Printf("%s %s seed=%d: evaluations=%d distinct_nontrivial=%d violations=%d known=%d wall=%.1fs\n",
 		c.ID, c.Tier, c.Seed, c.evals.Load(), len(c.nontrivial), len(c.violations), len(c.knownHits), wall)
